@@ -141,9 +141,22 @@ func CustomSpec(r *rand.Rand, alpn []string) (*utls.ClientHelloSpec, SpecDesc) {
 	}
 	r.Shuffle(len(ex), func(i, j int) { ex[i], ex[j] = ex[j], ex[i] })
 	// two GREASE extensions must not be adjacent-identical: utls handles values itself
-	if r.Intn(3) == 0 {
+	kind := "custom"
+	switch r.Intn(12) {
+	case 0, 1, 2, 3:
 		ex = append(ex, &utls.UtlsPaddingExtension{GetPaddingLen: utls.BoringPaddingStyle})
+	case 4, 5:
+		// a ClientHello that (nearly) fills one TLS record: message length 16372..16384 bytes, i.e. up to the
+		// largest record payload there is (2^14)
+		target := 16384 - []int{0, 0, 1, 2, 3, 4, 4, 5, 8, 12}[r.Intn(10)]
+		ex = append(ex, &utls.UtlsPaddingExtension{GetPaddingLen: func(unpadded int) (int, bool) {
+			if n := target - unpadded - 4; n >= 0 {
+				return n, true
+			}
+			return 0, false
+		}})
+		kind = "custom-record-filling"
 	}
 	spec.Extensions = ex
-	return spec, SpecDesc{Kind: "custom", ALPN: alpn}
+	return spec, SpecDesc{Kind: kind, ALPN: alpn}
 }
